@@ -155,7 +155,7 @@ def run_harness(scs, wd, name):
         for s in scs:
             f.write(json.dumps(s) + "\n")
     log_path = os.path.join(wd, name + ".log.ndjson")
-    p = vlib.run_vh(["sm", sc_path, log_path])
+    p = vlib.run_vh(["sm", sc_path, log_path], timeout=900)
     if p.returncode != 0:
         raise vlib.ToolError("harness failed: " + p.stderr[-2000:])
     return log_path
@@ -368,7 +368,7 @@ FN_PROPS["C01"] = {
 FN_PROPS["C03u"] = {
     "title": "decoration of the service URL", "module": "Cup", "cmd": "cup",
     "cfg": {"quick": ["cup.cfg"], "thorough": ["cup.cfg"]}, "prefixes": ["CUP"],
-    "filter": lambda v: v.get("k") == "url",
+    "filter": lambda v: v.get("k") in ("url", "ext"),
     "nontrivial": lambda v: True,
     "rule": "every service URL over {http, https} x {host, host:port, [v6], [v6]:port} x {no path, /, /a, /a/} x {no query, one pair, "
             "two pairs, an existing cup2key pair}, decorated with two key configurations; the result is split by an independent "
